@@ -7,6 +7,7 @@
 package c05
 
 import (
+	"runtime/debug"
 	"bytes"
 	"context"
 	"fmt"
@@ -54,6 +55,87 @@ func fdsInto(dir string) []string {
 	}
 	sort.Strings(out)
 	return out
+}
+
+// fdsOn lists the process's descriptors that point at exactly path.
+func fdsOn(path string) int {
+	ents, err := os.ReadDir("/proc/self/fd")
+	if err != nil {
+		return 0
+	}
+	n := 0
+	for _, e := range ents {
+		if l, err := os.Readlink("/proc/self/fd/" + e.Name()); err == nil && l == path {
+			n++
+		}
+	}
+	return n
+}
+
+// TestC05_FailingTarget: a file appender whose target refuses every write (/dev/full: ENOSPC, the
+// full disk). However many writes fail, the appender holds one descriptor on its file while it
+// runs and none after Stop / Destroy. (The collector is switched off meanwhile: a descriptor that
+// was merely forgotten would otherwise be closed by a finalizer sooner or later.)
+func TestC05_FailingTarget(t *testing.T) {
+	vk.Rule(rule)
+	if _, err := os.Stat("/dev/full"); err != nil {
+		t.Skip("no /dev/full")
+	}
+	defer debug.SetGCPercent(debug.SetGCPercent(-1))
+	rapid.Check(t, func(t *rapid.T) {
+		log.Destroy()
+		base := fdsOn("/dev/full")
+		viaRefresh := rapid.Bool().Draw(t, "viaRefresh")
+		writes := rapid.IntRange(1, 60).Draw(t, "writes")
+		raw := rapid.Bool().Draw(t, "rawWrites")
+		var write func(i int)
+		var stop func()
+		if viaRefresh {
+			kind := rapid.SampledFrom([]string{"appender", "filelogger"}).Draw(t, "kind")
+			m := map[string]string{"appender.unused.type": "Discard", "logger.c05h.tags": "_c05_main"}
+			if kind == "appender" {
+				m["appender.f.type"], m["appender.f.fileDir"], m["appender.f.fileName"] = "File", "/dev", "full"
+				m["logger.c05h.type"], m["logger.c05h.appenderRef.ref"] = "Logger", "f"
+			} else {
+				m["logger.c05h.type"], m["logger.c05h.fileDir"], m["logger.c05h.fileName"] = "File", "/dev", "full"
+			}
+			if err := log.Refresh(m); err != nil {
+				t.Fatalf("VERIF-INCONCLUSIVE C05: %v", err)
+			}
+			write = func(i int) {
+				if raw {
+					_, _ = handle.Write([]byte("id=" + strconv.Itoa(i) + "\n"))
+				} else {
+					log.Info(context.Background(), tagMain, log.Int("id", i))
+				}
+			}
+			stop = log.Destroy
+		} else {
+			a := &log.FileAppender{AppenderBase: log.AppenderBase{Name: "f"}, Layout: &log.TextLayout{BaseLayout: log.BaseLayout{FileLineLength: 48}}, FileDir: "/dev", FileName: "full"}
+			if err := a.Start(); err != nil {
+				t.Fatalf("VERIF-INCONCLUSIVE C05: %v", err)
+			}
+			write = func(i int) { a.Write([]byte("id=" + strconv.Itoa(i) + "\n")) }
+			stop = a.Stop
+		}
+		vk.Eval()
+		vk.Class("failing-target")
+		vk.NonTrivial(fmt.Sprintf("failing-target/%v/%d/%v", viaRefresh, writes, raw))
+		for i := 0; i < writes; i++ {
+			if p := vk.Catch(func() { write(i) }); p != nil {
+				stop()
+				t.Fatalf("VERIF-VIOLATION C05: a write to a full device panicked: %v", p)
+			}
+			if n := fdsOn("/dev/full") - base; n > 1 {
+				stop()
+				t.Fatalf("VERIF-VIOLATION C05: after %d failed writes the running file appender holds %d descriptors on its file (one is what it needs)", i+1, n)
+			}
+		}
+		stop()
+		if n := fdsOn("/dev/full") - base; n != 0 {
+			t.Fatalf("VERIF-VIOLATION C05: after Stop/Destroy the process still holds %d descriptor(s) on the appender's file", n)
+		}
+	})
 }
 
 func readAll(dir, prefix string) []byte {
